@@ -96,7 +96,10 @@ theorem judgeAct_done {cfg : Cfg} {j j1 : Book} {o : Obs} {id : Nat} (ha : o.act
   · simp only [judgeConveyor, ha] at h; exact judgeDone_ok h
   · simp only [judgeGate, ha] at h; exact judgeDone_ok h
   · simp only [judgeBatch, ha] at h; exact judgeDone_ok h
-  · simp only [judgeReneging, ha] at h; exact judgeDone_ok h
+  · simp only [judgeReneging, ha] at h
+    split at h
+    · cases h
+    · exact judgeDone_ok h
 
 /-- **Soundness (completed exactly once).** If the judge accepts a transcript, no id is seen twice
 at the downstream sink. -/
@@ -134,5 +137,111 @@ example : judgeRun { comp := .conveyor, limit := 1 } {} 0
     [⟨0, .offer 7 none, .start, [1, 0, 0], false⟩, ⟨5, .fin 7, .dash, [0, 1, 0], false⟩,
      ⟨5, .done 7, .dash, [0, 1, 0], false⟩, ⟨5, .done 7, .dash, [0, 1, 0], false⟩]
     = some "indus/conveyor/completed-twice at-line 3" := by decide
+
+/-! ## soundness: one dequeued item, one count ("exactly one of rejected-and-counted / … / in service") -/
+
+def isWork : Act → Bool
+  | .work _ => true
+  | _ => false
+
+/-- deliveries of a dequeued item to the worker along a transcript -/
+def workCount (obs : List Obs) : Nat := (obs.filter (fun o => isWork o.act)).length
+
+theorem judgeReneging_sum {cfg : Cfg} {j j1 : Book} {o : Obs} (h : judgeReneging cfg j o = .ok j1) :
+    j1.served + j1.reneged = j.served + j.reneged + (if isWork o.act then 1 else 0) := by
+  unfold judgeReneging at h
+  cases ha : o.act <;> simp only [ha] at h
+  all_goals (try unfold judgeDone at h)
+  all_goals (repeat' split at h)
+  all_goals first
+    | (cases h; done)
+    | (cases h; simp [isWork]; done)
+    | (cases h; simp [isWork]; omega)
+
+theorem finishObs_ok' {cfg : Cfg} {j j1 j' : Book} {o : Obs} (h : finishObs cfg j j1 o = .ok j') :
+    j'.served = j1.served ∧ j'.reneged = j1.reneged ∧ judgeCounters cfg j' o = none := by
+  unfold finishObs at h
+  split at h
+  · cases h
+  · split at h
+    · cases h
+    · rename_i hn
+      cases h
+      exact ⟨rfl, rfl, hn⟩
+
+theorem list_len6 {l : List Nat} (h : l.length = 6) : ∃ a b c d e f, l = [a, b, c, d, e, f] := by
+  rcases l with _ | ⟨a, _ | ⟨b, _ | ⟨c, _ | ⟨d, _ | ⟨e, _ | ⟨f, _ | ⟨g, r⟩⟩⟩⟩⟩⟩⟩ <;> simp at h
+  exact ⟨a, b, c, d, e, f, rfl⟩
+
+/-- accepted counters of the reneging component: what it reports is what the judge's book holds -/
+theorem renegingCounters_ok {cfg : Cfg} {j : Book} {o : Obs} (hc : cfg.comp = .reneging)
+    (h : judgeCounters cfg j o = none) : o.ctr.getD 3 0 = j.served ∧ o.ctr.getD 4 0 = j.reneged := by
+  unfold judgeCounters at h
+  simp only [hc] at h
+  split at h
+  · cases h
+  · rename_i hm
+    unfold mismatch at hm
+    split at hm
+    · cases hm
+    · rename_i hl
+      have hlen : o.ctr.length = 6 := by simpa using (Eq.symm (by simpa using hl))
+      obtain ⟨a, b, c, d, e, f, hctr⟩ := list_len6 hlen
+      rw [hctr] at hm ⊢
+      split at hm
+      · cases hm
+      · rename_i hf
+        simp [List.find?_eq_none] at hf
+        simp
+        omega
+
+/-- **Soundness (a dequeued item is counted exactly once).** If the judge accepts a transcript of the
+reneging component, then at every line the reported `served + reneged` equals the number of deliveries of a
+dequeued item to the worker so far: no item is counted as reneged *and* served, none is dropped uncounted. -/
+theorem judge_sound_served_xor_reneged (cfg : Cfg) (hc : cfg.comp = .reneging) :
+    ∀ (obs : List Obs) (j : Book) (i : Nat), judgeRun cfg j i obs = none →
+      ∀ (k : Nat) (o : Obs), obs[k]? = some o →
+        o.ctr.getD 3 0 + o.ctr.getD 4 0 = j.served + j.reneged + workCount (obs.take (k + 1)) := by
+  intro obs
+  induction obs with
+  | nil => intro j i _ k o hk; simp at hk
+  | cons o1 rest ih =>
+    intro j i h k o hk
+    unfold judgeRun at h
+    split at h
+    · cases h
+    · rename_i j' hj
+      obtain ⟨j1, hact, hf⟩ := judgeObs_ok hj
+      obtain ⟨hs, hr, hcn⟩ := finishObs_ok' hf
+      have hsum : j1.served + j1.reneged = j.served + j.reneged + (if isWork o1.act then 1 else 0) := by
+        unfold judgeAct at hact
+        simp only [hc] at hact
+        exact judgeReneging_sum hact
+      obtain ⟨h3, h4⟩ := renegingCounters_ok hc hcn
+      cases k with
+      | zero =>
+        simp at hk
+        subst hk
+        simp only [workCount, List.take, List.filter]
+        split <;> simp_all <;> omega
+      | succ k =>
+        have := ih j' (i + 1) h k o (by simpa using hk)
+        simp only [workCount, List.take, List.filter] at this ⊢
+        split <;> simp_all <;> omega
+
+/-- non-vacuity: an accepted reneging transcript (item 1 reneges without a target) … -/
+example : judgeRun { comp := .reneging, limit := 1, rtarget := false } {} 0
+    [⟨0, .offer 0 (some 1000), .acc, [1, 1, 0, 0, 0, 0], false⟩, ⟨0, .offer 1 (some 1000), .acc, [2, 2, 0, 0, 0, 0], false⟩,
+     ⟨0, .deq, .got 0, [1, 2, 0, 0, 0, 0], false⟩, ⟨0, .work 0, .start, [1, 2, 0, 1, 0, 1], false⟩,
+     ⟨4000, .fin 0, .dash, [1, 2, 0, 1, 0, 0], false⟩, ⟨4000, .deq, .got 1, [0, 2, 0, 1, 0, 0], false⟩,
+     ⟨4000, .work 1, .renege, [0, 2, 0, 1, 1, 0], false⟩, ⟨4000, .done 0, .dash, [0, 2, 0, 1, 1, 0], false⟩] = none := by decide
+
+/-- … and the same run with the expired item counted as reneged *and* started is rejected -/
+example : judgeRun { comp := .reneging, limit := 1, rtarget := false } {} 0
+    [⟨0, .offer 0 (some 1000), .acc, [1, 1, 0, 0, 0, 0], false⟩, ⟨0, .offer 1 (some 1000), .acc, [2, 2, 0, 0, 0, 0], false⟩,
+     ⟨0, .deq, .got 0, [1, 2, 0, 0, 0, 0], false⟩, ⟨0, .work 0, .start, [1, 2, 0, 1, 0, 1], false⟩,
+     ⟨4000, .fin 0, .dash, [1, 2, 0, 1, 0, 0], false⟩, ⟨4000, .deq, .got 1, [0, 2, 0, 1, 0, 0], false⟩,
+     ⟨4000, .work 1, .start, [0, 2, 0, 2, 1, 1], false⟩]
+    = some "indus/reneging/item-in-two-states at-line 6" := by decide
 
 end HappyModel.C08.Indus
